@@ -6,7 +6,7 @@ CONSTANTS
   AllowReg = FALSE
   CopyOpts = TRUE
   TightCap = TRUE
-  CopyArgs = FALSE
+  CopyArgs = TRUE
   HtmlDep = FALSE
 INVARIANTS Emit Deterministic SharedReadOnly NoBlocking LockSane
 CHECK_DEADLOCK FALSE
